@@ -128,6 +128,8 @@ def _check(ctx: Ctx) -> None:
     ok = len(cmpn) == 1 and isinstance(cmpn[0].ops[0], ast.Lt) and src(cmpn[0].left).startswith(bi.params[1] + ".")
     ctx.check(ok, "ORDER", "binary_insort inserts after equal times (`new.time < existing.time` goes left)", function=bi.qualname,
               construct="binary_insort does not keep insertion order among equal times", message=f"{[short(c) for c in cmpn]}", file=bi.file, node=bi.node)
+    from ..engines.structure import bisect_rule
+    ctx.floor("pieces of the sorted insertion decided", bisect_rule(ctx), 1)
 
     # NORM
     q = "Sequence.merge"
